@@ -28,6 +28,7 @@ func C15(ctx *Ctx) {
 	R.Rule("db-chunk", "every data-block record appended by EmitBytes describes at most the 16 bytes of its own line (16 for full lines, len&15 for the last)")
 	R.Rule("db-address", "the data-block record starts at the emitter's address and is re-addressed only after a full line ending at byte i, to entry address + i + 1; so line k of a data block starts at entry address + 16k")
 	R.Rule("pure", "WriteTextTo / WriteHexTo modify no field of the Emitter")
+	R.Rule("base-directive", "the method that sets the base stores the new base and address and arms the directive for every argument (also one equal to the current base); the directive helper lists one base record with that address exactly when armed and disarms it")
 	checkXbuf(ctx)
 	ems, roles := emitAll(ctx)
 	if len(roles.Err) > 0 {
@@ -48,6 +49,7 @@ func C15(ctx *Ctx) {
 		R.Fail("record", "line-fields", "", "listing records lack asmLineType / address / byteCount")
 		return
 	}
+	checkBaseDirective(ctx, roles, lineS, fAddr, fCount)
 	byType := map[uint64]lineRec{}
 	helperBad := map[string]string{}
 	helperOK := map[string]bool{}
@@ -958,4 +960,153 @@ func dbBoundedTiling(ctx *Ctx, roles *EmitterRoles, lineS *types.Struct, fType, 
 		}
 	}
 	return ""
+}
+
+// checkBaseDirective: "base directives appear where they were issued". The flag that arms the directive is the
+// boolean field the base setter stores true into.
+func checkBaseDirective(ctx *Ctx, roles *EmitterRoles, lineS *types.Struct, fAddr, fCount int) {
+	R := ctx.R
+	S := roles.Struct
+	named := roles.Named
+	// the setter: an exported method with one integer parameter that stores the base field
+	var setters []*ssa.Function
+	ms := ctx.Prog.SSA.MethodSets.MethodSet(types.NewPointer(named))
+	for i := 0; i < ms.Len(); i++ {
+		fn := ctx.Prog.SSA.MethodValue(ms.At(i))
+		if fn == nil || fn.Blocks == nil || !ms.At(i).Obj().Exported() || len(fn.Params) != 2 {
+			continue
+		}
+		if _, _, isInt := absint.IntType(fn.Params[1].Type()); !isInt {
+			continue
+		}
+		for _, b := range fn.Blocks {
+			for _, in := range b.Instrs {
+				if st, ok := in.(*ssa.Store); ok {
+					if fa, ok := st.Addr.(*ssa.FieldAddr); ok && fa.Field == roles.Base && fa.X == ssa.Value(fn.Params[0]) {
+						setters = append(setters, fn)
+					}
+				}
+			}
+		}
+	}
+	R.Count("base-setters", len(setters))
+	if len(setters) == 0 {
+		R.Pass("base-directive", "none", "", "no exported method sets the base: nothing to list")
+		return
+	}
+	armed := -1
+	for _, fn := range setters {
+		pos := ctx.Prog.Pos(fn.Pos())
+		key := "setter:" + fn.Name()
+		ip := absint.New()
+		recv := &absint.Ptr{Nil: absint.TriF, Obj: ip.SymObj("a", named), T: named}
+		st := &absint.State{Heap: absint.NewHeap(nil)}
+		w, sg, _ := absint.IntType(fn.Params[1].Type())
+		arg := absint.NewSym(w, ip.In.Atom("newbase", w, ^uint64(0)>>(64-uint(w))), sg)
+		_, out := ip.Call(fn, []absint.Val{recv, arg}, nil, st)
+		if out == nil || len(ip.Imprec) > 0 {
+			R.Fail("base-directive", key, pos, fmt.Sprintf("not interpretable: %v", ip.Imprec))
+			continue
+		}
+		var msgs []string
+		for _, f := range []int{roles.Base, roles.Address} {
+			v, _ := ip.Load(out, fieldPtr(recv, S.Field(f).Type(), f), S.Field(f).Type()).(*absint.Int)
+			if v == nil || v.Lin.Key() != arg.Lin.Key() {
+				msgs = append(msgs, fmt.Sprintf("%s becomes %s, want the argument for every argument", roles.fieldName(f), fmtVal(ip.Load(out, fieldPtr(recv, S.Field(f).Type(), f), S.Field(f).Type()))))
+			}
+		}
+		nTrue := 0
+		for f := 0; f < S.NumFields(); f++ {
+			if bt, ok := S.Field(f).Type().Underlying().(*types.Basic); !ok || bt.Kind() != types.Bool || f == roles.GenText {
+				continue
+			}
+			if bv, ok := ip.Load(out, fieldPtr(recv, S.Field(f).Type(), f), S.Field(f).Type()).(*absint.Bool); ok && bv.K == absint.TriT {
+				nTrue++
+				armed = f
+			}
+		}
+		if nTrue != 1 {
+			msgs = append(msgs, fmt.Sprintf("%d boolean fields are true after the call whatever the state before, want exactly one (the directive is armed unconditionally)", nTrue))
+		}
+		if len(msgs) > 0 {
+			R.Fail("base-directive", key, pos, strings.Join(msgs, "; "))
+		} else {
+			R.Pass("base-directive", key, pos, "base = address = argument, directive armed, for every argument and state")
+		}
+	}
+	if armed < 0 {
+		return
+	}
+	// the helper that lists the directive: the module method without parameters that clears the armed flag
+	for i := 0; i < ms.Len(); i++ {
+		fn := ctx.Prog.SSA.MethodValue(ms.At(i))
+		if fn == nil || fn.Blocks == nil || len(fn.Params) != 1 {
+			continue
+		}
+		clears := false
+		for _, b := range fn.Blocks {
+			for _, in := range b.Instrs {
+				if st, ok := in.(*ssa.Store); ok {
+					if fa, ok := st.Addr.(*ssa.FieldAddr); ok && fa.Field == armed && fa.X == ssa.Value(fn.Params[0]) {
+						clears = true
+					}
+				}
+			}
+		}
+		if !clears {
+			continue
+		}
+		pos := ctx.Prog.Pos(fn.Pos())
+		for _, on := range []bool{true, false} {
+			key := fmt.Sprintf("lister:%s:armed=%v", fn.Name(), on)
+			ip := absint.New()
+			recv := &absint.Ptr{Nil: absint.TriF, Obj: ip.SymObj("a", named), T: named}
+			st := &absint.State{Heap: absint.NewHeap(nil)}
+			k := absint.TriF
+			if on {
+				k = absint.TriT
+			}
+			ip.Store(st, fieldPtr(recv, S.Field(armed).Type(), armed), S.Field(armed).Type(), &absint.Bool{K: k})
+			ip.Store(st, fieldPtr(recv, S.Field(roles.GenText).Type(), roles.GenText), S.Field(roles.GenText).Type(), &absint.Bool{K: absint.TriT})
+			base0, _ := ip.Load(st, fieldPtr(recv, S.Field(roles.Base).Type(), roles.Base), S.Field(roles.Base).Type()).(*absint.Int)
+			addr0, _ := ip.Load(st, fieldPtr(recv, S.Field(roles.Address).Type(), roles.Address), S.Field(roles.Address).Type()).(*absint.Int)
+			_, out := ip.Call(fn, []absint.Val{recv}, nil, st)
+			if out == nil || len(ip.Imprec) > 0 {
+				R.Fail("base-directive", key, pos, fmt.Sprintf("not interpretable: %v", ip.Imprec))
+				continue
+			}
+			var recs []*absint.Struct
+			for _, ev := range ip.Events {
+				if ev.Kind == "append" && len(ev.Args) == 2 {
+					if sv, ok := ev.Args[1].(*absint.Struct); ok && sv.T == lineS {
+						recs = append(recs, sv)
+					}
+				}
+			}
+			after, _ := ip.Load(out, fieldPtr(recv, S.Field(armed).Type(), armed), S.Field(armed).Type()).(*absint.Bool)
+			msg := ""
+			switch {
+			case !on && len(recs) != 0:
+				msg = "a base record is listed although no base was set since the last one"
+			case on && len(recs) != 1:
+				msg = fmt.Sprintf("%d records listed for an armed directive, want 1", len(recs))
+			case on:
+				av, _ := recs[0].F[fAddr].(*absint.Int)
+				cv, _ := recs[0].F[fCount].(*absint.Int)
+				// (between setting the base and the next emission nothing moves the address: either field is the base)
+				if av == nil || base0 == nil || addr0 == nil || (av.Lin.Key() != base0.Lin.Key() && av.Lin.Key() != addr0.Lin.Key()) {
+					msg = "the base record does not carry the base address: " + fmtVal(recs[0].F[fAddr])
+				} else if c, isC := cv.IsConst(); cv == nil || !isC || c != 0 {
+					msg = "the base record claims bytes of the program"
+				} else if after == nil || after.K != absint.TriF {
+					msg = "the directive stays armed after it was listed: it would be listed again"
+				}
+			}
+			if msg != "" {
+				R.Fail("base-directive", key, pos, msg)
+			} else {
+				R.Pass("base-directive", key, pos, map[bool]string{true: "one base record with the base address, then disarmed", false: "nothing listed"}[on])
+			}
+		}
+	}
 }
